@@ -19,6 +19,18 @@ func main() {
 	r.Register("m", func(a []string) string { return pgen.FrameAPI() })
 	// pp FAM MS tok..: Parse fed back to back while a ping is pending (pingunit.go)
 	r.Register("pp", func(a []string) string { o, _ := runPing(a); return o })
+	// pt ..: the frame parsed twice on one session, the second call observed (source tracked by then)
+	r.Register("pt", func(a []string) string {
+		c := pgen.CfgOfToks(a[0:4])
+		s := pgen.NewSession(c)
+		frame, spare := lib.UnHex(a[4]), lib.UnHex(a[5])
+		buf, p := pgen.Buffer(frame, spare)
+		lib.Catch(func() { s.Parse(p) })
+		buf, p = pgen.Buffer(frame, spare)
+		return pgen.Observe(s, buf, p).Full
+	})
+	// consts NAME: a size the library fixes in its constructor (rowsunit.go)
+	r.Register("consts", constsRunner)
 	// locks send: mutexes lexically held at calls that can reach Conn.WriteTo in package packet (locksend.go)
 	r.Register("locks", func(a []string) string {
 		if txt, ok := locksAcrossSend(); ok {
@@ -32,6 +44,7 @@ func main() {
 		return
 	}
 	r.Do("m", "Frame")
+	rowsUnit(r)
 	if _, ok := locksAcrossSend(); ok {
 		r.Do("locks", "send")
 		r.Stat("locks.send.compared", 1)
